@@ -15,7 +15,8 @@ EXPLANATION = (
     "with target/mode/action passed unchanged; every other exit is self. C02.5: whole-envelope/subject variants are "
     "compositions (encrypt = encrypt_subject(wrap(self)); compress_subject = replace_subject(self, compress(subject(self))); "
     "replace_subject folds the receiver's assertions onto the new subject). With C01.2 this is the induction step "
-    "'children keep their digests => parent keeps its digest'. Does not decide that AEAD/DEFLATE return the payload unchanged.")
+    "'children keep their digests => parent keeps its digest'. Does not decide that AEAD/DEFLATE return the payload unchanged."
+    " C02.6: the per-case table of compress() (the C13.3 / C13.4 instances). C02.3 also covers the replace_subject form: the subject is replaced by its own encoding encrypted under its own digest.")
 TRUSTED = ['SymmetricKey::encrypt_with_digest stores its digest argument as AAD; Compressed::from_uncompressed_data stores its digest argument',
            'tagged_cbor(X) = to_tagged_value(first cbor_tag, untagged_cbor(X)) (dcbor default method)']
 FLOORS = {'C02.2': 9, 'C02.4': 4, 'C02.5': 3}
@@ -93,3 +94,8 @@ def check(ctx):
                 ctx.ok('C02.5', ctx.site(b), 'encrypt_subject = encrypt_subject_opt(self, key, None)')
             else:
                 ctx.fail('C02.5', ctx.site(b), 'encrypt_subject returns %s' % fmt(rt), key='C02.5|encrypt_subject')
+    # C02.6: whole-envelope compress keeps the digest of the element it replaces: the per-case table of compress() (Compressed -> self,
+    # Encrypted / Elided -> refusal, every other case -> the case itself compressed under its own digest; C13.3 / C13.4) under this property
+    if ctx.has('compress'):
+        from .C13 import check_compress_table
+        check_compress_table(ctx, 'C02.6', 'C02.6')
